@@ -658,6 +658,9 @@ func c11Run(run *vfRun, c c11Case) {
 	if nontrivial || c.Schedule == "quiet" {
 		key = fmt.Sprintf("%s/%v/%d/%d/%s/%d/%d/%d", c.Backend, c.Chained, c.Prefill, c.From, c.Schedule, c.GateAt, c.DuringN, c.AfterN)
 	}
+	if interleaved > 0 && c.Index < 40 {
+		run.Sample(map[string]any{"case": c, "appends_interleaved_with_catchup": interleaved, "store_head": st.head, "delivered_tail": tail(cons.rounds(), 10)})
+	}
 	run.Eval(key)
 	run.Seen("schedules", fmt.Sprintf("%s/%s/%v", c.Schedule, c.Backend, interleaved > 0))
 }
